@@ -167,6 +167,7 @@ pub fn hybrid_verdict(en: &EnB, o: &Outcome) -> Option<Violation> {
 /// Execute in replay mode and evaluate the enabled projection.
 pub fn replay_b(case: &CaseB, en: &EnB, obs: &mut ObsB) -> Result<Option<Violation>, String> {
   let o = run_b(case, None)?;
+  if std::env::var("VERIF_DUMP_TRACE").is_ok() { for (i, it) in o.trace.iter().enumerate() { eprintln!("  trace[{}] {}", i, item_str(it)); } eprintln!("  result {:?} notes {:?} {:?}", o.result, o.byte_error, o.byte_notes); }
   let l = case.layout.clone();
   let en2 = *en;
   let r = catch_unwind(AssertUnwindSafe(|| check_trace(&l, &o.trace, &o.result, &en2, obs))).map_err(|e| format!("reference loop panicked: {}", panic_msg(&e)))?;
